@@ -211,12 +211,12 @@ class Ridge2FoldCV(BaseEstimator, MultiOutputMixin, RegressorMixin):
         U_fold1, s_fold1, Vt_fold1 = np.linalg.svd(X_fold1, full_matrices=False)
         U_fold2, s_fold2, Vt_fold2 = np.linalg.svd(X_fold2, full_matrices=False)
 
-        # scipy.linalg.pinv default rcond value
+        # scipy.linalg.pinv default rcond value (relative to the largest singular value)
         rcond = max(X.shape) * np.spacing(X.real.dtype.type(1))
 
         # cutoff for singular values
-        n_fold1 = sum(s_fold1 > rcond)
-        n_fold2 = sum(s_fold2 > rcond)
+        n_fold1 = sum(s_fold1 > rcond * s_fold1[0])
+        n_fold2 = sum(s_fold2 > rcond * s_fold2[0])
 
         # computes intermediates in the least squares solution by SVD,
         # y2 ~ X_fold2 @ (V_fold1@S_fold1@U_fold1.T)@y_fold1
@@ -289,7 +289,7 @@ class Ridge2FoldCV(BaseEstimator, MultiOutputMixin, RegressorMixin):
         best_scaled_alpha = scaled_alphas[best_alpha_idx]
 
         U, s, Vt = np.linalg.svd(X, full_matrices=False)
-        n = sum(s > rcond)
+        n = sum(s > rcond * s[0])
         if self.regularization_method == "tikhonov":
             return (
                 (Vt.T[:, :n] * s[:n] / (s[:n] ** 2 + best_scaled_alpha)) @ (U.T[:n] @ y)
